@@ -76,7 +76,7 @@ def jobs(tier, seed):
             cols = nsf + ncf
             structs = list(itertools.product(list(rgs(n, maxlev)), repeat=cols))
             chunk = 40
-            for form in ("callable", "dict"):
+            for form in ("callable", "dict", "dict2"):
                 for lab in (("str",) if tier == "quick" else ("str", "int")):
                     for ci in range(0, len(structs), chunk):
                         js.append({"id": f"{name}-n{n}-{form}-{lab}-{ci // chunk}", "layout": name, "nsf": nsf, "ncf": ncf, "n": n, "form": form,
@@ -126,10 +126,17 @@ def run_job(job, deadline):
                     mf = MetricFrame(metrics=metric_g, y_true=np.array(t, dtype=object), y_pred=p, sensitive_features=sf, control_features=cf,
                                      sample_params={"s": np.array(s, dtype=object)})
                     names = ["metric_g"]
-                else:
+                elif job["form"] == "dict":
                     mf = MetricFrame(metrics={"g": metric_g, "h": metric_h}, y_true=t, y_pred=np.array(p, dtype=object), sensitive_features=sf,
                                      control_features=cf, sample_params={"g": {"s": s}})
                     names = ["g", "h"]
+                else:
+                    # the SAME callable under two names with DIFFERENT per-sample parameters (and a third metric without any)
+                    s2 = [real(f"r{i}") for i in range(n)]
+                    mf = MetricFrame(metrics={"g": metric_g, "g2": metric_g, "h": metric_h}, y_true=t, y_pred=np.array(p, dtype=object), sensitive_features=sf,
+                                     control_features=cf, sample_params={"g": {"s": s}, "g2": {"s": np.array(s2, dtype=object)}})
+                    names = ["g", "g2", "h"]
+                    s = {"g": s, "g2": s2}
                 return t, p, s, mf.by_group, mf.overall, names, mf.sensitive_levels, mf.control_levels
             except Exception as e:
                 return e
@@ -143,8 +150,9 @@ def run_job(job, deadline):
             acc.reach(ctx)
 
             def oracle(name, rows):
-                if name in ("metric_g", "g"):
-                    return core.zsum([G(term(t[i]), term(p[i]), term(s[i])) for i in rows])
+                if name in ("metric_g", "g", "g2"):
+                    sv = s[name] if isinstance(s, dict) else s
+                    return core.zsum([G(term(t[i]), term(p[i]), term(sv[i])) for i in rows])
                 return core.zsum([H(term(t[i]), term(p[i])) for i in rows])
 
             # grouping columns in the order the property states: control features first, then sensitive
@@ -175,7 +183,7 @@ def run_job(job, deadline):
             acc.check(ctx, "empty_combination_is_nan", z3.BoolVal(bool(nan_ok)), signature="empty_nan", extra=ex)
             acc.check(ctx, "cell_equals_metric_on_exactly_that_subgroup", z3.And(eqs) if eqs else z3.BoolVal(True), signature="cell", extra=ex)
             # overall: per observed control combination (all rows without control features)
-            ov = _cells(overall, names, series_is_metrics=(job["form"] == "dict" and ncf == 0))
+            ov = _cells(overall, names, series_is_metrics=(job["form"] != "callable" and ncf == 0))
             if ncf == 0:
                 exp_ov = {(): list(range(n))}
             else:
@@ -247,10 +255,17 @@ def replay(cex):
         if job["form"] == "callable":
             mf = MetricFrame(metrics=g, y_true=np.array(t), y_pred=p, sensitive_features=sf, control_features=cf, sample_params={"s": np.array(s)})
             names = ["g"]
-        else:
+        elif job["form"] == "dict":
             mf = MetricFrame(metrics={"g": g, "h": h}, y_true=t, y_pred=np.array(p), sensitive_features=sf, control_features=cf, sample_params={"g": {"s": s}})
             names = ["g", "h"]
+        else:
+            s2 = [float(7 ** (i + 1)) for i in range(n)]
+            mf = MetricFrame(metrics={"g": g, "g2": g, "h": h}, y_true=t, y_pred=np.array(p), sensitive_features=sf, control_features=cf,
+                             sample_params={"g": {"s": s}, "g2": {"s": np.array(s2)}})
+            names = ["g", "g2", "h"]
         fn = {"g": lambda rows: sum(t[i] * p[i] * s[i] for i in rows), "h": lambda rows: sum(t[i] * p[i] for i in rows)}
+        if job["form"] == "dict2":
+            fn["g2"] = lambda rows: sum(t[i] * p[i] * s2[i] for i in rows)
         gcols = cf_cols + sf_cols
         uniq = [sorted(set(c)) for c in gcols]
         expected_index = set(itertools.product(*uniq))
@@ -267,7 +282,7 @@ def replay(cex):
                         bad.append(f"empty combination {combo} reported as {v!r}, not NaN")
                 elif not (np.ndim(v) == 0 and abs(float(v) - fn[m](rows)) < 1e-6):
                     bad.append(f"cell {m}{combo} = {v!r}, metric on its rows {rows} = {fn[m](rows)}")
-        ov = _cells(mf.overall, names, series_is_metrics=(job["form"] == "dict" and ncf == 0))
+        ov = _cells(mf.overall, names, series_is_metrics=(job["form"] != "callable" and ncf == 0))
         exp_ov = {(): list(range(n))} if ncf == 0 else {
             combo: [i for i in range(n) if all(cf_cols[c][i] == combo[c] for c in range(ncf))]
             for combo in itertools.product(*[sorted(set(c)) for c in cf_cols])}
